@@ -119,7 +119,7 @@ func InstallEnvContracts(em *Emitted) {
 		if o := f.Origin(); o != nil {
 			key = o.String()
 		}
-		c := em.W.Contracts[key]
+		c := em.W.ContractFor(f)
 		if c == nil {
 			c = &Contract{Name: key, Emitted: true, LoopInv: map[int][]*Clause{}, LoopDec: map[int]*Clause{}, Options: map[string]string{"env": "true"}}
 			em.W.Contracts[key] = c
